@@ -1,7 +1,7 @@
 """C07 — numbers are parsed exactly: table oracles and sign/finiteness flow."""
-import struct
+import struct, collections
 from ..facts import callee_is, op_local, op_place, op_int, op_bytes, norm_path, FactError
-from ..analysis import backward_slice, control_deps, bool_switch_edges, forward_derived
+from ..analysis import backward_slice, control_deps, bool_switch_edges, forward_derived, rv_places
 from .. import oracles
 from .c01 import short
 
@@ -651,6 +651,62 @@ def r07_9(ctx):
            f"bits - 1 < {T} with mask {M}: the all-ones pattern (a pending carry from the low product) is accepted as exact")
 
 
+MODULAR_AUDIT = {
+    # (function, operation): (sites audited, why wrapping is right there)
+    ("ByteSlice>::parse_digits", "wrapping_sub"): (1, "digit test c - b'0' < 10 on a byte"),
+    ("common::is_8digits", "wrapping_add"): (1, "SWAR digit test on 8 packed bytes"),
+    ("common::is_8digits", "wrapping_sub"): (1, "SWAR digit test on 8 packed bytes"),
+    ("lemire::compute_product_approx", "wrapping_add"): (1, "low word of a 128-bit sum; the carry is recovered by the comparison that follows"),
+    ("lemire::power", "wrapping_mul"): (1, "fixed-point log2(10) multiplication of a bounded exponent"),
+    ("parse_floating_normal_fast", "wrapping_add"): (2, "low product sum with explicit carry test; rounding increment followed by the carry test"),
+    ("parse_floating_normal_fast", "wrapping_sub"): (1, "range trick bits - 1 < limit"),
+    ("parse_number", "wrapping_mul"): (1, "19-digit accumulator; the digit count is checked after the loop and sends longer inputs to the slow path"),
+    ("parse_number", "wrapping_add"): (1, "19-digit accumulator (same)"),
+    ("parse_number", "wrapping_sub"): (1, "0 - significant for a negative integer, after significant <= 2^63 was tested"),
+    ("parse_number", "overflowing_mul"): (1, "20th digit: the overflow flag is tested"),
+    ("parse_number", "overflowing_add"): (1, "20th digit: the overflow flag is tested"),
+}
+
+
+def r07_10(ctx):
+    """modular arithmetic in the number conversion is confined to the audited sites, and every overflow flag is consumed"""
+    prog = ctx.prog()
+    cnt = collections.Counter()
+    where = {}
+    for f in prog.fns.values():
+        if f.crate != "sonic_number":
+            continue
+        owner = prog.fns.get(f.parent_fn, f) if f.parent_fn else f
+        for b, t in f.calls():
+            nm = t["callee"].rsplit("::", 1)[-1]
+            if nm.startswith(("wrapping_", "overflowing_", "unchecked_")) and "core::num" in t["callee"] and nm not in ("wrapping_shr", "wrapping_shl"):
+                key = (norm_path(owner.id).split("::", 1)[1], nm)
+                cnt[key] += 1
+                where.setdefault(key, f.loc(t["ln"]))
+                if nm.startswith("overflowing_"):
+                    # the flag (.1) must reach a branch
+                    d = t["dest"][0]
+                    flag_used = False
+                    for bb, i, s in f.assigns():
+                        for pl in rv_places(s["rv"]):
+                            if pl[0] == d and [e[2] for e in pl[1] if isinstance(e, list) and e[0] == "."][:1] == ["1"]:
+                                der = forward_derived(f, {s["lhs"][0]}) | {s["lhs"][0]}
+                                for sb, st in f.terms():
+                                    if st["k"] == "switch":
+                                        dl = op_local(st["discr"])
+                                        sl, leaves = backward_slice(f, [dl]) if dl is not None else (set(), [])
+                                        if der & set(sl):
+                                            flag_used = True
+                    ctx.ob("R07.10", f"overflow-flag-tested:{key[0]}:{nm}#{cnt[key]}", flag_used, f.loc(t["ln"]), "the overflow flag of the operation decides a branch" if flag_used else "the overflow flag is dropped: the wrapped value is used as if exact")
+    for key, c in sorted(cnt.items()):
+        hit = [(k, v) for k, v in MODULAR_AUDIT.items() if key[0].endswith(k[0]) and key[1] == k[1]]
+        allowed = hit[0][1][0] if hit else 0
+        ctx.ob("R07.10", f"modular-arithmetic:{key[0]}:{key[1]}", c <= allowed, where[key],
+               (f"{c} site(s), audited {allowed}: {hit[0][1][1]}" if hit and c <= allowed else
+                f"{c} site(s) of {key[1]} in {key[0]}, {allowed} audited: a value that wrapped modulo 2^64 is used in the conversion without an audited overflow argument"))
+    ctx.floor("R07.10", "modular arithmetic sites in sonic_number", sum(cnt.values()), 8)
+
+
 def r07_s(ctx):
     """shifts, table indices and unsigned differences of the conversion stay in range (interval analysis, shared with C01):
     a wrapped shift or an out-of-range table index yields a wrong float in release builds"""
@@ -658,4 +714,4 @@ def r07_s(ctx):
     ctx.include(c01.r01_13, "R07.S", ("sonic_number",), 15)
 
 
-RULES = [("R07.1", r07_1), ("R07.3", r07_3), ("R07.4", r07_4), ("R07.5", r07_5), ("R07.6", r07_6), ("R07.6b", r07_6b), ("R07.7", r07_7), ("R07.8", r07_8), ("R07.9", r07_9), ("R07.S", r07_s)]
+RULES = [("R07.1", r07_1), ("R07.3", r07_3), ("R07.4", r07_4), ("R07.5", r07_5), ("R07.6", r07_6), ("R07.6b", r07_6b), ("R07.7", r07_7), ("R07.8", r07_8), ("R07.9", r07_9), ("R07.10", r07_10), ("R07.S", r07_s)]
